@@ -596,7 +596,8 @@ def replay(lead, inputs, obs):
 def harnesses(tier, seed):
     hs = _harnesses(tier, seed)
     for h in hs:
-        h.replay = replay
+        if h.replay is None:
+            h.replay = replay
     return hs
 
 
@@ -609,4 +610,8 @@ def _harnesses(tier, seed):
     hs += [h_nlr_uint1(), h_nlr_uint2(), h_nlr_numargs(), h_nlr_opcode(), h_nlr_linear()]
     from specs import C02_items
     hs += C02_items.harnesses()
+    from specs import C02_expr
+    hs += C02_expr.harnesses()
+    from specs import C02_read
+    hs += C02_read.harnesses()
     return hs
